@@ -40,15 +40,20 @@ def py_eq(I, a, b):
             return False
         cs = [py_eq(I, x, y) for x, y in zip(a, b)]
         return conj(cs)
+    user_eq = False
     for x, y in ((a, b), (b, a)):
         if isinstance(x, (IObject, RObj)):
             f, owner = x.cls.lookup("__eq__")
             if isinstance(f, IFunction):
+                user_eq = True
                 r = I.call(IBound(f, x), [y], {})
+                if r is I.world.builtins.get("NotImplemented"):
+                    continue            # try the reflected operand, then fall back to identity (as CPython does)
                 if isinstance(r, Sym):
                     return S(smt.truthy(r.term))
                 return I.truth(r)
-            break
+    if user_eq:
+        return a is b
     if isinstance(a, (IList, IDict)) and isinstance(b, (IList, IDict)):
         if type(a) is not type(b):
             return False
